@@ -44,6 +44,9 @@ async fn pipe(mut a: TcpStream, mut b: TcpStream, frozen: Arc<AtomicBool>, throt
             match ar.read(&mut buf[..cap]).await {
                 Ok(0) | Err(_) => break,
                 Ok(n) => {
+                    // a read that was already pending when the link was frozen must not slip through
+                    thaw(&frozen).await;
+                    thaw(&frozen_fwd).await;
                     if bw.write_all(&buf[..n]).await.is_err() {
                         break;
                     }
